@@ -72,24 +72,29 @@ def run(ctx):
     _bss(ctx)
 
     # ---- (3) implicit narrowing
-    W = dict(UNSIGNED)
-    W.update(SIGNED)
     nn = 0
     scope = ("src/encoding/", "src/compression/", "src/writer/", "src/reader/", "src/thrift/", "src/metadata/", "src/util/")
-    for f in P.lib_functions():
-        rf = P.rel(f.file)
-        if not rf.startswith(scope):
-            continue
+    fns = [f for f in P.lib_functions() if P.rel(f.file).startswith(scope)]
+    ctx.floor("C11 functions scanned for implicit narrowing", len(fns), 380)
+    for f, n, st, dt in narrowing_sites(P, fns):
+        nn += 1
+        ctx.bad("R5.narrow", "implicit-narrowing|%s:%s|%s->%s" % (P.rel(f.file), f.name, st, dt), P.where(n),
+                "`%s` (%s) is implicitly truncated to %s" % (src(n.c[0])[:60], st, dt),
+                "the repo casts explicitly wherever a 64-bit quantity is narrowed")
+    ctx.ok("R5.narrow", "implicit-narrowing|scope", "src/{encoding,compression,writer,reader,thrift,metadata,util}",
+           "no implicit 64->32-bit narrowing of a non-constant in the codec and file layers", "%d sites" % nn)
+
+
+def narrowing_sites(P, fns):
+    """Implicit integral conversions of a non-constant from a 64-bit to a <=32-bit type."""
+    W = dict(UNSIGNED)
+    W.update(SIGNED)
+    for f in fns:
         for n in f.body.walk():
             if n.k == "ImplicitCastExpr" and n.get("ck") == "IntegralCast" and n.c and n.c[0] is not None:
                 st, dt = clean_type(n.c[0].t), clean_type(n.t)
                 if W.get(st, 0) == 64 and 0 < W.get(dt, 0) <= 32 and n.c[0].cv is None:
-                    nn += 1
-                    ctx.bad("R5.narrow", "implicit-narrowing|%s:%s|%s->%s" % (rf, f.name, st, dt), P.where(n),
-                            "`%s` (%s) is implicitly truncated to %s" % (src(n.c[0])[:60], st, dt),
-                            "the repo casts explicitly wherever a 64-bit quantity is narrowed")
-    ctx.ok("R5.narrow", "implicit-narrowing|scope", "src/{encoding,compression,writer,reader,thrift,metadata,util}",
-           "no implicit 64->32-bit narrowing of a non-constant in the codec and file layers", "%d sites" % nn)
+                    yield f, n, st, dt
 
 
 def run_pad_rule(ctx):
